@@ -428,6 +428,75 @@ fn check_same_address_inputs(rt: &tokio::runtime::Runtime) -> Verdict {
     }
 }
 
+/// An input that can be shared between threads and changed through a shared reference (serde serializes an atomic by
+/// its current content).
+#[derive(serde::Serialize)]
+struct Inventory {
+    item: &'static str,
+    stock: std::sync::atomic::AtomicI64,
+    reserved: std::sync::Mutex<i64>,
+}
+
+/// `evaluate(&inventory)` is held between two rules that read the input while another thread changes the input: the
+/// outcomes of one evaluation all describe one state of the input (running the evaluation and the update one after the
+/// other gives all-before or all-after, never a mix), and a second evaluation started after the update sees the new state.
+fn check_input_updated_while_held(rt: &tokio::runtime::Runtime) -> Verdict {
+    use rvv::probe::PARK_RELEASE;
+    use std::sync::atomic::AtomicI64;
+    let mut fns = BTreeMap::new();
+    fns.insert("fc".to_string(), me::FnSpec { cacheable: true, fail_on: vec![], fail_first: 0, uncacheable_after: 0 });
+    let spec = SetSpec {
+        rules: vec![
+            ("stock-before".into(), Expr::reff("stock")),
+            ("reserved-before".into(), Expr::reff("reserved")),
+            ("hold".into(), Expr::iif(Expr::eq(Expr::reff("item"), Expr::value("bolt".to_string())), Expr::func("fc", Expr::Vec(vec![Expr::value(1000), Expr::value("park".to_string())])), Expr::value(0))),
+            ("stock-after".into(), Expr::reff("stock")),
+            ("in-stock".into(), Expr::gt(Expr::reff("stock"), Expr::reff("reserved"))),
+        ],
+        fns,
+        symbols: BTreeMap::new(),
+        suspend: 1,
+    };
+    let inv = Arc::new(Inventory { item: "bolt", stock: AtomicI64::new(7), reserved: std::sync::Mutex::new(1) });
+    let built = probe::build(&spec, true);
+    let rs = Arc::new(built.ruleset);
+    PARK_RELEASE.store(false, Ordering::SeqCst);
+    rvv::probe::PARK_ONCE.store(true, Ordering::SeqCst);
+    let parked_before = rvv::probe::PARKED.load(Ordering::SeqCst);
+    let (held, later) = rt.block_on(watched("the updated-input scenario did not finish", async {
+        let (rs1, i1) = (rs.clone(), inv.clone());
+        let held = tokio::spawn(async move { detach(rs1.evaluate(&*i1).await.expect("evaluate")) });
+        wait_parked(parked_before).await;
+        inv.stock.store(0, Ordering::SeqCst);
+        *inv.reserved.lock().unwrap() = 5;
+        let later = detach(rs.evaluate(&*inv).await.expect("evaluate"));
+        PARK_RELEASE.store(true, Ordering::SeqCst);
+        (held.await.ok(), later)
+    }));
+    PARK_RELEASE.store(true, Ordering::SeqCst);
+    let ints = |o: &Outs| -> Vec<Option<Value>> { o.iter().map(|(_, v)| v.as_ref().ok().cloned()).collect() };
+    let state = |stock: i128, reserved: i128| vec![Some(Value::Int(stock)), Some(Value::Int(reserved)), None, Some(Value::Int(stock)), Some(Value::Bool(stock > reserved))];
+    let matches = |o: &Outs, want: &[Option<Value>]| {
+        let got = ints(o);
+        got.len() == want.len() && got.iter().zip(want).enumerate().all(|(i, (g, w))| i == 2 || matches!((g, w), (Some(g), Some(w)) if same_value(g, w, true)))
+    };
+    let held_ok = held.as_ref().map(|h| matches(h, &state(7, 1)) || matches(h, &state(0, 5))).unwrap_or(false);
+    let later_ok = matches(&later, &state(0, 5));
+    if held_ok && later_ok {
+        Ok(())
+    } else {
+        let show = |o: &Outs| o.iter().map(|(n, v)| format!("{n}={}", v.as_ref().map(show_value).unwrap_or_else(|e| format!("Err({e})")))).collect::<Vec<_>>();
+        Err(Issue::new(
+            "threads:input-updated-while-held",
+            format!(
+                "evaluate(&inventory) held between its rules while another thread sets stock 7 -> 0 and reserved 1 -> 5: the held evaluation gives {:?} (one state of the input is [7, 1, _, 7, true] or [0, 5, _, 0, false]); an evaluation started after the update gives {:?} (expected [0, 5, _, 0, false])",
+                held.as_ref().map(show),
+                show(&later)
+            ),
+        ))
+    }
+}
+
 fn case_json(c: &Case) -> serde_json::Value {
     json!({"spec": spec_to_json(&c.spec), "n": c.n, "raw_threads": c.raw_threads, "repeat": c.repeat, "input_seed": c.input_seed.to_string(),
         "same_input": c.same_input, "abort_half": c.abort_half})
@@ -629,6 +698,15 @@ fn main() {
         }
         let j: serde_json::Value = serde_json::from_str(&text).expect("json");
         let case = j.get("case").cloned().unwrap_or(j);
+        if case.get("input_updated_while_held").is_some() {
+            if let Err(i) = check_input_updated_while_held(&rt) {
+                println!("DETAIL property=C18 sig={} {}", i.sig, i.msg);
+                println!("VIOLATION property=C18 replay={}", args[3]);
+                std::process::exit(1);
+            }
+            println!("REPLAY property=C18 holds on {}", args[3]);
+            return;
+        }
         if case.get("same_address_inputs").is_some() {
             if let Err(i) = check_same_address_inputs(&rt) {
                 println!("DETAIL property=C18 sig={} {}", i.sig, i.msg);
@@ -722,6 +800,20 @@ fn main() {
                     pacc.case("same-address", true, || "evaluate(&struct) held while evaluate(&struct.first_field) runs".to_string());
                     if let Err(issue) = r {
                         let case = json!({"same_address_inputs": true});
+                        if let Err(issue) = ctx.triage(issue, &|| case.to_string()) {
+                            ctx.violation("threads", case, &issue);
+                            failed = true;
+                            break;
+                        }
+                    }
+                }
+            }
+            if !failed {
+                for _ in 0..3 {
+                    let r = check_input_updated_while_held(&rt);
+                    pacc.case("input-updated-while-held", true, || "evaluate(&struct with atomic fields) held between two rules while another thread updates the fields".to_string());
+                    if let Err(issue) = r {
+                        let case = json!({"input_updated_while_held": true});
                         if let Err(issue) = ctx.triage(issue, &|| case.to_string()) {
                             ctx.violation("threads", case, &issue);
                             failed = true;
